@@ -31,7 +31,7 @@ func runChild(b *buildOut, p *plan.Plan, wallLimit time.Duration) *plan.Result {
 	ctx, cancel := context.WithTimeout(context.Background(), wallLimit)
 	defer cancel()
 	cmd := exec.CommandContext(ctx, b.bin, "-test.run", "^TestSim$", "-test.timeout", "0")
-	env := []string{"GOMAXPROCS=1", "GOGC=off", "GODEBUG=asyncpreemptoff=1,randautoseed=0,randseednop=0", "VERIF_PLAN=" + pf, "VERIF_OUT=" + of, "HOME=" + os.Getenv("HOME"), "PATH=" + os.Getenv("PATH"), "GORACE=halt_on_error=0 exitcode=66"}
+	env := []string{"GOMAXPROCS=1", "GOGC=off", "GODEBUG=asyncpreemptoff=1,randautoseed=0,randseednop=0,updatemaxprocs=0", "VERIF_PLAN=" + pf, "VERIF_OUT=" + of, "HOME=" + os.Getenv("HOME"), "PATH=" + os.Getenv("PATH"), "GORACE=halt_on_error=0 exitcode=66"}
 	if b.threads > 0 {
 		env = append(env, fmt.Sprintf("VERIF_THREADS=%d", b.threads))
 	}
